@@ -21,7 +21,7 @@ func init() {
 		Assumptions:    []string{"a recycling validator is used once (documented contract)", trustDeps},
 	}
 	Properties["C05"] = PropSpec{
-		Rules:          []Rule{Globals, SharedReach, Cow, PoolAPI, ResLinear, Slots, Stateless},
+		Rules:          []Rule{VariadicAppend, Globals, SharedReach, Cow, PoolAPI, ResLinear, Slots, Stateless},
 		DebugConfigToo: true,
 		Explanation:    "Decides the structural conditions race-freedom and independence rest on, for every function and path: GLOBALS (every package-level variable classified: sync object / never written after init / guarded) + LOCKSET (every run-time access of a guarded global holds the mutex common to its writers; must-held locksets with call-site propagated entry sets); COW (published regexp-cache snapshots are never written, publication under the mutex after an in-section reload, into a fresh map); exclusive ownership of pooled objects (RES-LINEAR: nothing is read after its release, nothing released twice; SLOT-*: no child reachable from two owners; POOL-API, EMPTY-IMMUTABLE: the shared empty result is never written); STATELESS (a validator built without recycling is only read while validating, so it can be shared).",
 		NotDecided:     "The Go memory model itself; races inside dependencies (spec expander, analysis); caller-supplied registries; equality of concurrent and solitary outcomes beyond independence of shared state.",
@@ -162,7 +162,7 @@ func init() {
 
 func init() {
 	Properties["C12"] = PropSpec{
-		Rules:       []Rule{InputRO},
+		Rules:       []Rule{VariadicAppend, InputRO},
 		Explanation: "INPUT-RO: whole-package taint propagation on SSA. Sources are the schema / data / parameter / header / document parameters of the exported entry points and (*loads.Document).Spec(); a value is T1 when it points into caller-owned memory and T2 when it is the address of a local shallow copy (pointers, maps and slices loaded out of a T2 copy are T1 again). Every store through a pointer, map update, delete, append, copy and external mutator call (ExpandSchema, ExpandParameter*, ExpandResponse*, sort.*, json.Unmarshal, gob Decode) on spec.* / dynamic-JSON typed memory in package validate must have a target that is not T1. Two reviewed exceptions are checked structurally: the lazy ExpandSchema of a caller's schema under the test of its ID/$ref, and the parameter list rewritten on the operation returned by expandedAnalyzer(), which must still prefer the private expanded copy.",
 		NotDecided:  "Mutation performed inside dependencies on objects handed to them and not listed in the mutator table; package post (mutates the data by contract).",
 		Assumptions: []string{"(*loads.Document).Expanded and swag.ToDynamicJSON return memory not shared with their argument", trustDeps},
